@@ -28,9 +28,10 @@
        hypotheses as in C01.
      * the two refutations.
      * interp_policy: proved in full.
+     * constraints_genuine_partial: the "every reported constraint holds" half of constraints_exact.
    constraints_exact and interp_complete are checked per run by the oracle (tools/props/c13.py),
    not proved. *)
-From Verif Require Import Exec Ser Ast Types TypeCheck InterpModel InterpRefine InterpSound InterpRefuted InterpMain InterpPolicy.
+From Verif Require Import Exec Ser Ast Types TypeCheck InterpModel InterpRefine InterpSound InterpRefuted InterpMain InterpPolicy InterpGenuine.
 Local Open Scope N_scope.
 
 Theorem interp_is_recursive :
@@ -59,6 +60,20 @@ Theorem interp_policy :
     interp e ke kp m st = IAccept cs -> psat ke cs m = true.
 Proof. exact interp_policy_holds. Qed.
 Print Assumptions interp_policy.
+
+(* half of constraints_exact: every constraint yielded -- by an accepted or a rejected run, for
+   every miniscript -- was really checked and holds ([cvalid]: the signature verifies for that key,
+   the preimage has 32 bytes and hashes to the image, the lock time is met by the interpreter's
+   comparison).  The other half (nothing the executed path checked is missing; same order) is
+   compared per run with the instrumented execution. *)
+Theorem constraints_genuine_partial :
+  forall (e : env) (ke : keyenv) (kp : bytes -> bool) (m : ms) (st : astack),
+    match interp e ke kp m st with
+    | IAccept cs | IReject _ cs => Forall (cvalid e) cs
+    | _ => True
+    end.
+Proof. exact interp_constraints_genuine. Qed.
+Print Assumptions constraints_genuine_partial.
 
 (* finding (DESIGN 10-h): evaluate_after ignores BIP65's "nSequence must not be final" *)
 Theorem interp_sound_refuted :
